@@ -1,8 +1,9 @@
 CONSTANTS
   N = 1
   MaxTasks = 3
+  G = 1
   Dev = {}
 SPECIFICATION Spec
 CHECK_DEADLOCK FALSE
-INVARIANTS TypeOK AtMostOnce OnlySubmittedRun LockNotHeldWhileRunning LockConsistent NeverPoisoned NoLossNoDup NoPrematureExit SingleShutdown
+INVARIANTS TypeOK AtMostOnce OnlySubmittedRun LockNotHeldWhileRunning LockConsistent NeverPoisoned NoLossNoDup NoPrematureExit SingleShutdown HandlesOwn
 PROPERTIES EventuallyEachOnce CallerNeverBlocks AllWorkersExit PanicIsolated EventuallyQuiescent AllSubmittedDone
